@@ -272,6 +272,10 @@ def run_balance(label, tier):
             t = time.time()
             bm = BalanceModel(g, asg)
             r, q, s = bm.unbalanced_root()
+            if r not in (z3.sat, z3.unsat):   # rare under heavy load: ask a freshly built fixedpoint once more
+                bm = BalanceModel(g, asg)
+                r, q2, s = bm.unbalanced_root()
+                q += q2
             nonvac = bm.fp.query(bm.R["BalA"](bm.nv(g.root), bm.zero, bm.zero))
             st.paths += 1
             st.nontrivial += 1
@@ -297,6 +301,8 @@ def run_balance(label, tier):
             # the model reads an unlisted flag as False; the real config has its own defaults, so spell every flag out
             full = {f: bool(asg.get(f, False)) for f in flags}
             rep = find_reproducer(label, sorted(kws), flags=full) if kws else None
+            if kws and not rep:   # a second, wider pass before the candidate is filed as unconfirmed
+                rep = find_reproducer(label, sorted(kws), limit=400, flags=full)
             desc = {"dialect": label, "flags": full, "root_values": sorted(Av[g.root]),
                     "culprits": [f"{nd.obj.__name__}{vals}" for nd, vals, _ in cul][:6], "keywords": sorted(kws)[:10]}
             if rep:
